@@ -800,16 +800,19 @@ theorem svg_arc_roundtrip (H : ExactTrig (K := K) exactAngle) (S : SinSign K) (a
   obtain ⟨r1, r2, r3, _, r5, r6⟩ := svg_arc_roundtrip_of_exact H a h1 h2 h3 hfm
   exact ⟨r1, r2, r3, r5, r6, svg_arc_large_flag H a h1 h2 h3 S hfm⟩
 
-/-! ## euclid's `fast_atan2` is not an exact angle function -/
+/-! ## §4 euclid's `fast_atan2` is not an exact angle function -/
 
 section witness
 variable {F : Type} [Field F] [LinearOrder F] [IsStrictOrderedRing F] [Transc F]
 
 /-- **witness (pure rational arithmetic, no `π` involved).**  For an exact angle function,
 `atan2(1,2) + atan2(1,3) = atan2(1,1)` (Euler: `(2+i)(3+i) = 5+5i`, all three angles in the first
-octant).  euclid's polynomial gives `0.46364… + 0.32166… = 0.78530…` on the left and `0.78519…`
-on the right: it is not additive, so it is not `(cos, sin)`-exact and the hypothesis
-`ExactTrig.angle_exact` of `svg_arc_endpoints` is NOT met by the code as it is. -/
+octant).  euclid's polynomial (`Vector2D::angle_from_x_axis`, `angle_to`) gives
+`0.46364… + 0.32166… = 0.78530…` on the left and `0.78519…` on the right: it is not additive, so
+it is not `(cos, sin)`-exact and does not satisfy `ExactTrig.angle_exact`.  This is why
+`Arc::from_svg_arc` (and `WithSvg::arc`) must not take their angles with `angle_from_x_axis`, as
+they did until /repo a39176c6 / 8ce8d2e3: the arc then missed its end points by up to
+2·10⁻⁴·radius (former finding C13-fast-atan2-endpoint-drift; the oracle class stays active). -/
 theorem fast_atan2_not_exact_witness :
     fastAtan2 (1 : F) 2 + fastAtan2 (1 : F) 3 ≠ fastAtan2 (1 : F) 1
     ∧ (1 : F) / 10000 < fastAtan2 (1 : F) 2 + fastAtan2 (1 : F) 3 - fastAtan2 (1 : F) 1 := by
@@ -1030,13 +1033,18 @@ example (arc : Arc ℝ) (a1 d : ℝ) (hd : Real.cos (d / 2) ≠ 0) :
   · exact Real.cos_add a1 d
   · exact Real.sin_add a1 d
   · show Real.tan (d * Scalar.half) * Real.sin d = 1 - Real.cos d
-    rw [sc_half, show d * (1 / 2 : ℝ) = d / 2 by ring, Real.tan_eq_sin_div_cos]
+    have hh : (Scalar.half : ℝ) = 1 / 2 := sc_half
+    rw [hh, show d * (1 / 2 : ℝ) = d / 2 by ring, Real.tan_eq_sin_div_cos]
     have h1 : Real.sin d = 2 * Real.sin (d / 2) * Real.cos (d / 2) := by
-      rw [← Real.sin_two_mul]; ring_nf
-    have h2 : Real.cos d = 1 - 2 * Real.sin (d / 2) ^ 2 := by
-      rw [← Real.cos_two_mul']; ring_nf
-      sorry
-    rw [h1, h2]; field_simp; ring
+      have := Real.sin_two_mul (d / 2)
+      rwa [show 2 * (d / 2) = d by ring] at this
+    have h2 : Real.cos d = 2 * Real.cos (d / 2) ^ 2 - 1 := by
+      have := Real.cos_two_mul (d / 2)
+      rwa [show 2 * (d / 2) = d by ring] at this
+    have hsc := Real.sin_sq_add_cos_sq (d / 2)
+    rw [h1, h2]
+    field_simp
+    linear_combination 2 * hsc
 
 /-- **numeric witness over `ℝ`**: at the diagonal, euclid's `fast_atan2(1, 1)` is more than
 `2·10⁻⁴` rad below `π/4`. -/
